@@ -284,3 +284,19 @@ Proof.
     f_equal. f_equal. unfold max_args in *. lia.
   - f_equal. f_equal. unfold max_args in *. lia.
 Qed.
+
+(* the linear-time splitter of the oracle computes the specification *)
+Lemma split_dollar_fast_eq q : forall cur_rev, split_dollar_fast cur_rev q = split_dollar (rev cur_rev) q.
+Proof.
+  induction q as [|b r IH]; intros cur_rev; cbn [split_dollar_fast split_dollar];
+    rewrite rev_append_rev, app_nil_r; [reflexivity|].
+  destruct (Byte.eqb b x24).
+  - rewrite (IH []). reflexivity.
+  - rewrite (IH (b :: cur_rev)). reflexivity.
+Qed.
+Lemma dollar_indices_fast_eq q : dollar_indices_fast q = dollar_indices q.
+Proof. unfold dollar_indices_fast, dollar_indices. rewrite (split_dollar_fast_eq q []). reflexivity. Qed.
+Lemma max_index_fast_eq q : max_index_fast q = max_index q.
+Proof. unfold max_index_fast, max_index. rewrite dollar_indices_fast_eq. reflexivity. Qed.
+Lemma has_dollar_index_fast_eq q : has_dollar_index_fast q = has_dollar_index q.
+Proof. unfold has_dollar_index_fast, has_dollar_index. rewrite dollar_indices_fast_eq. reflexivity. Qed.
